@@ -215,9 +215,9 @@ theorem TaskOK.transport {P : Program} {depth : Node → Nat} {s s' : St} {tk tk
     · rcases te.st with h1 | ⟨w, hw, hr, hwk⟩
       · exact Or.inr (by rw [h1]; exact h)
       · rw [h] at hw; cases hw; exact Or.inl ⟨⟨_, hr⟩, hwk⟩
-  | nodeExec d0 q pc hn hns hfr hpc1 hpc2 hlive hproc hnores =>
+  | nodeExec d0 q pc hn hns hfr hpc1 hpc2 hlive hproc hnores hrests =>
     exact .nodeExec tk' d0 q pc (by rw [te.name]; exact hn) hns (by rw [te.frames]; exact hfr) hpc1 hpc2 (te.live hlive)
-      (hproc' q hproc) (hstore d0 q pc hfr hpc1 hpc2 hnores)
+      (hproc' q hproc) (hstore d0 q pc hfr hpc1 hpc2 hnores) hrests
   | nodeDone q r0 hn hns hfr hst hnc hev =>
     exact .nodeDone tk' q r0 (by rw [te.name]; exact hn) hns (by rw [te.frames]; exact hfr) (te.done hst) hnc (hev' q hev)
   | swStart d0 S0 hn hsS hfr hno1 hst =>
@@ -698,7 +698,8 @@ theorem struct_node_exec {P : Program} {depth : Node → Nat} {s s1 : St} (hs : 
     (hmc : tkt.mustCancel = false)
     (h1 : (s1 = s ∧ pc0.exec = true ∧ s.proc q = true ∧ s.res q = none) ∨
           (s1 = s.markProcessed q ∧ pc0 = .start ∧ s.procExists q = false))
-    (hpc' : pc'.exec = true) (st' : TaskSt) (hlive : ({ tkt with frames := [.node d q false pc'], st := st' } : Task).live) :
+    (hpc' : pc'.exec = true) (hrs' : pc'.rests = true) (st' : TaskSt)
+    (hlive : ({ tkt with frames := [.node d q false pc'], st := st' } : Task).live) :
     Struct P depth (s1.setTask t { tkt with frames := [.node d q false pc'], st := st' }) := by
   have hd := hs.data
   have e : Ext t s s1 := by
@@ -830,7 +831,7 @@ theorem struct_node_exec {P : Program} {depth : Node → Nat} {s s1 : St} (hs : 
       exact hother j tj d2 f2 p2 hjt hj hfj hp2
     · exact noCancel_close e htkt hd.noCancel hmc (fun i tk hi h => absurd h (fun h'' => hnonew i tk hi h''))
   · exact .nodeExec _ d q pc' hnm hns rfl (by intro h; subst h; cases hpc') (by intro h; subst h; cases hpc') hlive hpq
-      (by rw [show (s1.setTask t _).res = s1.res from rfl, hres]; exact hresq)
+      (by rw [show (s1.setTask t _).res = s1.res from rfl, hres]; exact hresq) hrs'
   · intro q' hl
     refine Launched.close (tk' := { tkt with frames := [.node d q false pc'], st := st' }) e htkt rfl hl ?_
     intro d' hf'
@@ -2255,5 +2256,291 @@ theorem struct_dagInit_task {P : Program} {depth : Node → Nat} (hp : LiveP P d
   obtain ⟨d1, hdf, x⟩ := lbase_of_dagTask hs htkt hrt hf0 rfl
   cases hdf with
   | init => exact struct_dagInit hp c hcP hmc x obs (valid_of_dagInit c _ obs d _ hv)
+
+
+/-! ### the sections of `_run_node` -/
+
+/-- a section of the node task `c.t` of `q`, begun in state `s` at `pc0`; `s1` is `s`, or `s` with `q` just marked as
+processed -/
+structure NCtx (P : Program) (depth : Node → Nat) (c : Ctx) (s s1 : St) (tkt : Task) (d : DagRef) (q : Node)
+    (pc0 : NodePc) : Prop where
+  hp   : LiveP P depth
+  hcP  : c.P = P
+  hs   : Struct P depth s
+  htkt : s.tasks[c.t]? = some tkt
+  hnm  : tkt.name = .node q
+  hns  : P.g.isSwitch q = false
+  hf0  : tkt.frames = [.node d q false pc0]
+  hrt  : ∃ rv, tkt.st = .runnable rv
+  st   : (s1 = s ∧ pc0.exec = true ∧ s.proc q = true ∧ s.res q = none) ∨
+         (s1 = s.markProcessed q ∧ pc0 = .start ∧ s.procExists q = false)
+
+theorem NCtx.hmc {P : Program} {depth : Node → Nat} {c : Ctx} {s s1 : St} {tkt : Task} {d : DagRef} {q : Node} {pc0 : NodePc}
+    (x : NCtx P depth c s s1 tkt d q pc0) : tkt.mustCancel = false :=
+  x.hs.data.noCancel tkt (List.mem_of_getElem? x.htkt)
+
+theorem NCtx.resNone {P : Program} {depth : Node → Nat} {c : Ctx} {s s1 : St} {tkt : Task} {d : DagRef} {q : Node}
+    {pc0 : NodePc} (x : NCtx P depth c s s1 tkt d q pc0) : s.res q = none := by
+  rcases x.st with ⟨_, _, _, h⟩ | ⟨_, _, h⟩
+  · exact h
+  · cases hr : s.res q with
+    | none => rfl
+    | some v =>
+      have := x.hs.data.c6 q (by rw [hr]; rfl)
+      simp [St.procExists, this, (x.hs.data.noHid q).2] at h
+
+/-- the node task blocks on its body or its retry timer, or yields before the next attempt -/
+theorem NCtx.exec {P : Program} {depth : Node → Nat} {c : Ctx} {s s1 : St} {tkt : Task} {d : DagRef} {q : Node} {pc0 : NodePc}
+    (x : NCtx P depth c s s1 tkt d q pc0) (pc' : NodePc) (hpc' : pc'.exec = true) (hrs' : pc'.rests = true) (st' : TaskSt)
+    (hlive : ({ tkt with frames := [.node d q false pc'], st := st' } : Task).live) :
+    Struct P depth (s1.setTask c.t { tkt with frames := [.node d q false pc'], st := st' }) :=
+  struct_node_exec x.hs x.htkt x.hnm x.hns x.hf0 x.hrt x.hmc x.st hpc' hrs' st' hlive
+
+/-- the node task leaves `_run_node`, with or without having stored a result -/
+theorem NCtx.done {P : Program} {depth : Node → Nat} {c : Ctx} {s s1 : St} {tkt : Task} {d : DagRef} {q : Node} {pc0 : NodePc}
+    (x : NCtx P depth c s s1 tkt d q pc0) (s0 : St) (hs0 : s0 = s1 ∨ ∃ v, s0 = s1.setRes q v ∧ v.isRecur = false)
+    (r : TaskRes) (hr : (∃ e, r = .exc e) ∨ (r = .ok ∧ (s0.res q).isSome = true)) (obs : List Obs) :
+    Struct P depth (endTask c (nodeFinally P s0 d q true) obs r).1 := by
+  have hd := x.hs.data
+  have hnone := x.resNone
+  -- `s1` against `s`
+  have b1 : s1.tasks = s.tasks ∧ s1.sw = s.sw ∧ s1.evSet = s.evSet ∧ s1.resHid = s.resHid ∧ s1.res = s.res ∧
+      (∀ n, s1.procHid n = false) ∧ s1.proc q = true ∧ (∀ n, s1.proc n = true → n = q ∨ s.proc n = true) ∧
+      (∀ n, s.proc n = true → s1.proc n = true) := by
+    rcases x.st with ⟨h, _, hp, _⟩ | ⟨h, _, _⟩
+    · subst h
+      exact ⟨rfl, rfl, rfl, rfl, rfl, fun n => (hd.noHid n).2, hp, fun n h => Or.inr h, fun n h => h⟩
+    · subst h
+      refine ⟨rfl, rfl, rfl, rfl, rfl, ?_, by simp [St.markProcessed, upd], ?_, ?_⟩
+      · intro n; simp only [St.markProcessed, upd]; split
+        · rfl
+        · exact (hd.noHid n).2
+      · intro n hn; simp only [St.markProcessed, upd] at hn; split at hn
+        · next h => exact Or.inl h
+        · exact Or.inr hn
+      · intro n hn; simp only [St.markProcessed, upd]; split
+        · rfl
+        · exact hn
+  obtain ⟨t1, t2, t3, t4, t5, t6, t7, t8, t9⟩ := b1
+  have hex : pc0.exec = true ∨ s.procExists q = false := by
+    rcases x.st with ⟨_, h, _⟩ | ⟨_, _, h⟩
+    · exact Or.inl h
+    · exact Or.inr h
+  have hself : (nodeFinally P s0 d q true).tasks[c.t]? = some tkt := by
+    have h0 : s0.tasks = s.tasks := by
+      rcases hs0 with h | ⟨v, h, _⟩ <;> rw [h]
+      · exact t1
+      · exact t1
+    have e1 : Ext c.t s0 (nodeFinally P s0 d q true) := Ext.nodeFinally d q (by
+      intro tk0 h; rw [h0, x.htkt] at h; cases h; exact x.hrt)
+    rw [e1.self, h0]; exact x.htkt
+  rw [endTask_eq c _ obs r hself]
+  rcases hs0 with h | ⟨v, h, hv⟩
+  · subst h
+    refine struct_node_done x.hp x.hs x.htkt x.hnm x.hns x.hf0 x.hrt t1 t2 t3 t4 t6 t7 t8 t9 (fun n _ => by rw [t5])
+      (Or.inl (by rw [t5])) r ?_
+    rcases hr with h | ⟨h1, h2⟩
+    · exact Or.inl h
+    · exact Or.inr ⟨h1, Or.inl h2⟩
+  · subst h
+    refine struct_node_done (s0 := s1.setRes q v) x.hp x.hs x.htkt x.hnm x.hns x.hf0 x.hrt t1 t2 t3 ?_ t6 t7 t8 t9 ?_ ?_ r ?_
+    · funext n
+      simp only [St.setRes, upd]
+      split
+      · next h => rw [h]; exact ((hd.noHid q).1).symm
+      · rw [t4]
+    · intro n hn
+      simp only [St.setRes, upd]
+      rw [if_neg hn, t5]
+    · exact Or.inr ⟨v, by simp [St.setRes, upd], hv, hnone, hex⟩
+    · rcases hr with h | ⟨h1, h2⟩
+      · exact Or.inl h
+      · exact Or.inr ⟨h1, Or.inl h2⟩
+
+theorem cbCall_noYield (c : Ctx) (hy : ∀ cb n, c.P.cbYield cb n = 0) (cb : Cb) (n : Node) (s : St) (obs : List Obs)
+    (fr : Nat → List Frame) (kOk : St → List Obs → Out) (kErr : Exc → St → List Obs → Out) :
+    cbCall c cb n s obs fr kOk kErr = (match c.P.cbRaise cb n with | some e => kErr e s obs | none => kOk s obs) := by
+  unfold cbCall
+  cases c.P.cbRaise cb n with
+  | some e => rfl
+  | none => simp only [hy, cbThen]
+
+section
+variable {P : Program} {depth : Node → Nat} {c : Ctx} {s s1 : St} {tkt : Task} {d : DagRef} {q : Node} {pc0 : NodePc}
+
+theorem NCtx.self1 (x : NCtx P depth c s s1 tkt d q pc0) : s1.tasks[c.t]? = some tkt := by
+  rcases x.st with ⟨h, _⟩ | ⟨h, _⟩ <;> rw [h] <;> exact x.htkt
+
+theorem NCtx.noYield (x : NCtx P depth c s s1 tkt d q pc0) : ∀ cb n, c.P.cbYield cb n = 0 := by
+  rw [x.hcP]; exact x.hp.noYield
+
+/-- an exception leaves `_run_node` -/
+theorem NCtx.raise (x : NCtx P depth c s s1 tkt d q pc0) (s0 : St)
+    (hs0 : s0 = s1 ∨ ∃ v, s0 = s1.setRes q v ∧ v.isRecur = false) (e : Exc) (obs : List Obs) :
+    Struct P depth (raiseOut c (nodeFinally c.P s0 d q true) obs [] (.exc e)).1 := by
+  unfold raiseOut
+  simp only [unwindFrames]
+  rw [x.hcP]
+  exact x.done s0 hs0 (.exc e) (Or.inl ⟨e, rfl⟩) obs
+
+theorem NCtx.cbRaise (x : NCtx P depth c s s1 tkt d q pc0) (s0 : St)
+    (hs0 : s0 = s1 ∨ ∃ v, s0 = s1.setRes q v ∧ v.isRecur = false) (e : Exc) (obs : List Obs) :
+    Struct P depth (nodeCbRaise c s0 obs d q [] e).1 := x.raise s0 hs0 e obs
+
+theorem NCtx.cbRaiseInTry (x : NCtx P depth c s s1 tkt d q pc0) (e : Exc) (obs : List Obs) :
+    Struct P depth (nodeCbRaiseInTry c s1 obs d q [] e).1 := x.raise s1 (Or.inl rfl) e _
+
+/-- `_run_node` returns after the `finally` -/
+theorem NCtx.finish (x : NCtx P depth c s s1 tkt d q pc0) (v : Val) (hv : v.isRecur = false) (obs : List Obs) :
+    Struct P depth (retTo c (nodeFinally c.P (s1.setRes q v) d q true) obs [] .none).1 := by
+  unfold retTo
+  simp only []
+  rw [x.hcP]
+  exact x.done _ (Or.inr ⟨v, rfl, hv⟩) .ok (Or.inr ⟨rfl, by simp [St.setRes, upd]⟩) obs
+
+/-- the executing task stores the result, saves it, announces it -/
+theorem NCtx.post (x : NCtx P depth c s s1 tkt d q pc0) (v : Val) (hv : v.isRecur = false) (obs : List Obs) :
+    Struct P depth (nodePost c s1 obs d q [] v true).1 := by
+  unfold nodePost
+  simp only [hv, Bool.false_eq_true, if_false, recSpawn, storeIf, if_true, Bool.not_false, Bool.true_and]
+  split
+  · rw [cbCall_noYield c x.noYield]
+    split
+    · exact x.cbRaise _ (Or.inr ⟨v, rfl, hv⟩) _ _
+    · exact x.finish v hv _
+  · exact x.finish v hv _
+
+theorem NCtx.failCont (x : NCtx P depth c s s1 tkt d q pc0) (e : Exc) (obs : List Obs) :
+    Struct P depth (nodeFailCont c s1 obs d q [] e).1 := by
+  unfold nodeFailCont
+  split
+  · exact x.post (.exc e) rfl obs
+  · exact x.raise s1 (Or.inl rfl) e obs
+
+theorem NCtx.fail (x : NCtx P depth c s s1 tkt d q pc0) (e : Exc) (obs : List Obs) :
+    Struct P depth (nodeFail c s1 obs d q [] e).1 := by
+  unfold nodeFail
+  rw [cbCall_noYield c x.noYield]
+  split
+  · exact x.cbRaise s1 (Or.inl rfl) _ _
+  · exact x.failCont e _
+
+theorem NCtx.success (x : NCtx P depth c s s1 tkt d q pc0) (v : Val) (hv : v.isRecur = false) (obs : List Obs) :
+    Struct P depth (nodeSuccess c s1 obs d q [] v).1 := by
+  unfold nodeSuccess
+  rw [cbCall_noYield c x.noYield]
+  split
+  · exact x.cbRaiseInTry _ _
+  · exact x.post v hv _
+
+theorem NCtx.dflt (x : NCtx P depth c s s1 tkt d q pc0) (kw : Kwargs) (obs : List Obs) :
+    Struct P depth (nodeDefault c s1 obs d q [] kw).1 := by
+  unfold nodeDefault
+  refine x.success _ ?_ _
+  rw [x.hcP]
+  exact (x.hp.sw.noRecurD q kw).1
+
+theorem NCtx.sleep (x : NCtx P depth c s s1 tkt d q pc0) (k : Nat) (kw : Kwargs) (inv : Nat) (obs : List Obs) :
+    Struct P depth (nodeSleep c s1 obs d q false [] k kw inv).1 := by
+  unfold nodeSleep
+  simp only []
+  split
+  · rw [block_eq c s1 _ _ _ x.self1]
+    exact x.exec (.sleep k kw inv) rfl rfl _ (Or.inr (Or.inr ⟨_, _, _, _, rfl⟩))
+  · rw [yieldNow_eq c s1 _ _ x.self1]
+    exact x.exec (.sleep k kw inv) rfl rfl _ (Or.inl ⟨_, rfl⟩)
+
+theorem NCtx.afterBody (x : NCtx P depth c s s1 tkt d q pc0) (k : Nat) (kw : Kwargs) (inv : Nat) (obs : List Obs) :
+    Struct P depth (nodeAfterBody c s1 obs d q false [] k kw inv (c.P.body q kw inv k)).1 := by
+  unfold nodeAfterBody
+  simp only []
+  split
+  · next v hb =>
+    refine x.success v ?_ obs
+    have := x.hp.sw.noRecur q kw inv k v (by rw [← x.hcP]; exact hb)
+    exact this.1
+  · next e hb =>
+    split
+    · split
+      · split
+        · exact x.dflt kw obs
+        · exact x.fail e obs
+      · rw [cbCall_noYield c x.noYield]
+        split
+        · exact x.cbRaiseInTry _ _
+        · exact x.sleep k kw inv _
+    · split
+      · split
+        · exact x.dflt kw obs
+        · exact x.fail e obs
+      · exact x.raise s1 (Or.inl rfl) e obs
+
+theorem NCtx.attempt (x : NCtx P depth c s s1 tkt d q pc0) (k : Nat) (kw : Kwargs) (inv : Nat) (obs : List Obs) :
+    Struct P depth (nodeAttempt c s1 obs d q false [] k kw inv).1 := by
+  unfold nodeAttempt
+  simp only [Bool.false_eq_true, if_false]
+  split
+  · exact x.afterBody k kw inv _
+  · rw [block_eq c s1 _ _ _ x.self1]
+    exact x.exec (.body k kw inv) rfl rfl _ (Or.inr (Or.inl ⟨_, _, _, _, rfl⟩))
+
+theorem NCtx.begin (x : NCtx P depth c s s1 tkt d q pc0) (inv : Nat) (obs : List Obs) :
+    Struct P depth (nodeBegin c s1 obs d q false [] inv).1 := by
+  unfold nodeBegin
+  split
+  · exact x.fail _ obs
+  · exact x.attempt 1 _ inv obs
+end
+
+/-- a node task finds its node done by somebody else (at once, or after waiting for the node's event): it announces the
+node again and returns -/
+theorem struct_node_read {P : Program} {depth : Node → Nat} (hp : LiveP P depth) (c : Ctx) (hcP : c.P = P) {s : St}
+    (hs : Struct P depth s) {tkt : Task} (htkt : s.tasks[c.t]? = some tkt) {d : DagRef} {q : Node} {pc0 : NodePc}
+    (hnm : tkt.name = .node q) (hns : P.g.isSwitch q = false) (hf0 : tkt.frames = [.node d q false pc0])
+    (hrt : ∃ rv, tkt.st = .runnable rv) (hpq : s.proc q = true) (hev : s.evSet q = true) (obs : List Obs) :
+    Struct P depth (nodePost c s obs d q [] (s.get q) false).1 := by
+  have hd := hs.data
+  have hv : (s.get q).isRecur = false := by
+    unfold St.get
+    split
+    · rfl
+    · cases hr : s.res q with
+      | none => rfl
+      | some v => exact hd.noRec q v hr
+  unfold nodePost
+  simp only [hv, Bool.false_eq_true, if_false, recSpawn, storeIf, Bool.false_and, Bool.not_false]
+  unfold retTo
+  simp only []
+  have hself : (nodeFinally c.P s d q true).tasks[c.t]? = some tkt := by
+    have e1 : Ext c.t s (nodeFinally c.P s d q true) := Ext.nodeFinally d q (by
+      intro tk0 h; rw [htkt] at h; cases h; exact hrt)
+    rw [e1.self]; exact htkt
+  rw [endTask_eq c _ obs _ hself, hcP]
+  exact struct_node_done hp hs htkt hnm hns hf0 hrt rfl rfl rfl rfl (fun n => (hd.noHid n).2) hpq (fun n h => Or.inr h)
+    (fun n h => h) (fun n _ => rfl) (Or.inl rfl) .ok (Or.inr ⟨rfl, Or.inr hev⟩)
+
+/-- **`_run_node` starts** -/
+theorem struct_nodeStart {P : Program} {depth : Node → Nat} (hp : LiveP P depth) (c : Ctx) (hcP : c.P = P) {s : St}
+    (hs : Struct P depth s) {tkt : Task} (htkt : s.tasks[c.t]? = some tkt) {d : DagRef} {q : Node}
+    (hnm : tkt.name = .node q) (hns : P.g.isSwitch q = false) (hf0 : tkt.frames = [.node d q false .start])
+    (hrt : ∃ rv, tkt.st = .runnable rv) (obs : List Obs) :
+    Struct P depth (nodeStart c s obs d q false []).1 := by
+  have hmc : tkt.mustCancel = false := hs.data.noCancel tkt (List.mem_of_getElem? htkt)
+  unfold nodeStart
+  split
+  · next hpe =>
+    have hpq : s.proc q = true := by simp only [St.procExists, Bool.and_eq_true] at hpe; exact hpe.1
+    split
+    · next hev => exact struct_node_read hp c hcP hs htkt hnm hns hf0 hrt hpq hev obs
+    · rw [block_eq c s _ _ _ htkt]
+      exact struct_node_wait hs htkt hnm hns hf0 hrt hmc hpe
+  · next hpe =>
+    have x : NCtx P depth c s (s.markProcessed q) tkt d q .start :=
+      ⟨hp, hcP, hs, htkt, hnm, hns, hf0, hrt, Or.inr ⟨rfl, rfl, by simpa using hpe⟩⟩
+    simp only []
+    rw [cbCall_noYield c x.noYield]
+    split
+    · exact x.cbRaise _ (Or.inl rfl) _ _
+    · exact x.begin _ _
 
 end MLPE.Eng
